@@ -196,6 +196,15 @@ impl Documents {
                 err: err.to_string(),
             })?;
 
+        // `write_all` only hands the data over to a background task. Without flushing, the
+        // compilation triggered right after this call may read a truncated or stale file.
+        file.flush()
+            .await
+            .map_err(|err| DocumentError::UnableToWriteFile {
+                path: uri.path().to_string(),
+                err: err.to_string(),
+            })?;
+
         Ok(())
     }
 
